@@ -967,6 +967,29 @@ def run(tier, seed):
             if text is not None:
                 XM.document(gw, text, cm, describe_bar(bm))
 
+    # ---------------- MusicXML write_Composition: the file holds exactly the text, also when it replaces a longer file
+    gf = "musicxml.write_Composition"
+    import tempfile, shutil, os as _os
+    tmpd = tempfile.mkdtemp(prefix="c19-")
+    try:
+        long_c, _m1 = B.composition(cdesc([tdesc([simple_bar, ("G", (3, 4), one), simple_bar], name="a"), tdesc([simple_bar], name="b")],
+                                          title="A long title " * 5))
+        short_c, _m2 = B.composition(cdesc([tdesc([simple_bar])], title="T"))
+        base = _os.path.join(tmpd, "piece")
+        for label, comp in (("first write", long_c), ("a shorter piece over it", short_c), ("the long one again", long_c)):
+            R.case(gf, label)
+            ok, _r = R.guard(gf, "xml-well-formed", label, lambda: X.write_Composition(comp, base))
+            if not ok:
+                continue
+            with open(base + ".xml") as fh:
+                got = fh.read()
+            want = X.from_Composition(comp)
+            if got != want:
+                R.fail(gf, "xml-well-formed", "%s: the file holds %d characters, from_Composition gives %d (tail %r)"
+                       % (label, len(got), len(want), got[-60:]), label)
+    finally:
+        shutil.rmtree(tmpd, ignore_errors=True)
+
     R.assumptions.append("names are the 35 spellings with 0-2 like accidentals; mixed spellings such as 'C#b' have no "
                          "LilyPond note name and are outside the quantifier")
     R.assumptions.append("a NoteContainer exported on its own has no \\times bracket; the tuplet ratio is checked on bar "
@@ -974,7 +997,7 @@ def run(tier, seed):
     R.assumptions.append("the first bar of a track: key / meter are checked where written; the statement does not require "
                          "them to be written there (LilyPond defaults C major, 4/4 are what the exporter assumes)")
     R.assumptions.append("meter (0, 0), values outside the vocabulary, control characters in titles, to_pdf / to_png and "
-                         "musicxml.write_Composition / from_Note are not exercised; XML schema element order is not checked")
+                         "musicxml.from_Note and the compressed (.mxl) form of write_Composition are not exercised; XML schema element order is not checked")
     return R.result(
         rule="LilyPond: from_Note 35 names x octaves 0-8 x standalone (exhaustive); from_NoteContainer 80 values "
              "(10 bases longa..128 x {plain, 1-4 dots, 3:2, 5:4, 7:4}) x float/int/library-built forms x {note, rest, None, chord} "
